@@ -149,12 +149,20 @@ func (t *tr) cur(lhs ast.Expr) string {
 	return ""
 }
 
-func endsInReturn(b *ast.BlockStmt) bool {
+func (t *tr) endsInReturn(b *ast.BlockStmt) bool {
 	if len(b.List) == 0 {
 		return false
 	}
-	_, ok := b.List[len(b.List)-1].(*ast.ReturnStmt)
-	return ok
+	if _, ok := b.List[len(b.List)-1].(*ast.ReturnStmt); ok {
+		return true
+	}
+	// a terminal statement that the spec maps to a result value (Calls) ends the function too
+	for p := range t.spec.Calls {
+		if strings.HasPrefix(t.text(b.List[len(b.List)-1]), p) {
+			return true
+		}
+	}
+	return false
 }
 
 func (t *tr) ret(e string) string {
@@ -175,6 +183,13 @@ func (t *tr) stmts(list []ast.Stmt, ind string) string {
 	s, rest := list[0], list[1:]
 	if t.ignored(s) {
 		return t.stmts(rest, ind)
+	}
+	if _, isExpr := s.(*ast.ExprStmt); !isExpr && len(rest) == 0 {
+		for p, v := range t.spec.Calls {
+			if strings.HasPrefix(t.text(s), p) {
+				return ind + v
+			}
+		}
 	}
 	switch x := s.(type) {
 	case *ast.ExprStmt:
@@ -205,7 +220,7 @@ func (t *tr) stmts(list []ast.Stmt, ind string) string {
 			fail("if with init statement")
 		}
 		cond := t.expr(x.Cond)
-		if endsInReturn(x.Body) {
+		if t.endsInReturn(x.Body) {
 			thenS := t.stmts(x.Body.List, ind+"  ")
 			var elseList []ast.Stmt
 			if x.Else != nil {
